@@ -287,3 +287,32 @@ def boundary_layout(rng, B, first_lines=1, nmsgs=25, notation="iso", continuatio
     lay = Layout(lines, dated)
     lay.tslen = notation_tslen(notation)
     return lay
+
+
+def exact_size_layout(rng, size, notation="iso"):
+    """one-line messages (a few with a continuation line) making a file of exactly `size` bytes"""
+    lines, dated = [], []
+    k = 0
+    total = 0
+    while True:
+        k += 1
+        head = ts_head(k, notation) + b" exact n=%d " % k
+        left = size - total
+        if left < len(head) + 140:
+            ln = head + b"z" * (left - len(head) - 1) + b"\n"
+            lines.append(ln)
+            dated.append(True)
+            break
+        ln = head + b"e" * rng.choice([0, 11, 47]) + b"\n"
+        lines.append(ln)
+        dated.append(True)
+        total += len(ln)
+        if k % 7 == 3:
+            c = b"   continued\n"
+            lines.append(c)
+            dated.append(False)
+            total += len(c)
+    lay = Layout(lines, dated)
+    lay.tslen = notation_tslen(notation)
+    assert lay.size == size, (lay.size, size)
+    return lay
